@@ -58,6 +58,10 @@ type C01Spec struct {
 	// (unless the cell is a header) new headers
 	Cb   int `json:"cb,omitempty"`
 	Idle int `json:"idle,omitempty"`
+	// Fresh: the case runs in a process of its own, so the items of Also and
+	// the item under test are the first items that process ever puts into cells
+	// (c01_more.go)
+	Fresh bool `json:"fresh,omitempty"`
 }
 
 const (
@@ -382,6 +386,9 @@ var c01ByValueKinds = []string{"structslice", "structmap", "valstrptr", "valerrm
 
 // c01Make builds the base item and says how a mutation round changes it
 func c01Make(base ItemSpec) (interface{}, func(C01Round)) {
+	if v, m, ok := c01MakeMore(base); ok {
+		return v, m
+	}
 	switch base.K {
 	case "num":
 		return c01Nums[int(base.I)%len(c01Nums)], func(C01Round) {}
@@ -732,6 +739,9 @@ func c01Run(sp C01Spec) (coq string, desc C01Desc, texts []string, lv []*c01Leve
 	// the items that go first
 	var pre []*c01Level
 	var preDesc []c01LevelDesc
+	// the first item whose fresh cell does not read as Go itself says the item
+	// reads: only used to name the class of a failure (Desc.sig), never to judge
+	var firstOff *ItemSpec
 	for _, a := range sp.Also {
 		_, ab := a.chain()
 		av, _ := c01Make(ab)
@@ -764,6 +774,10 @@ func c01Run(sp C01Spec) (coq string, desc C01Desc, texts []string, lv []*c01Leve
 		}()
 		if !pl.panicky {
 			pl.newObs = observeCell(pl.cell, pl.stored)
+			if firstOff == nil && pl.newObs.Panic == "" && pl.newObs.Text != c01TextHint(av) {
+				off := ab
+				firstOff = &off
+			}
 		}
 		texts = append(texts, pl.newObs.Text)
 		pre = append(pre, pl)
@@ -834,6 +848,10 @@ func c01Run(sp C01Spec) (coq string, desc C01Desc, texts []string, lv []*c01Leve
 	for k, l := range lv {
 		if !l.panicky {
 			l.newObs = observeCell(l.cell, l.stored)
+			if firstOff == nil && l.newObs.Panic == "" && l.newObs.Text != c01TextHint(l.stored) {
+				off := base
+				firstOff = &off
+			}
 		}
 		texts = append(texts, l.newObs.Text)
 		descL[k].New = l.newObs
@@ -908,7 +926,11 @@ func c01Run(sp C01Spec) (coq string, desc C01Desc, texts []string, lv []*c01Leve
 			}
 		}
 	}
-	desc = C01Desc{Sig: c01SigSpec(sp, base), Levels: descL, GoCode: c01GoSnippet(wraps, base, sp.Via, sp.Also), Between: c01Between(sp)}
+	sig := c01SigSpec(sp, base)
+	if firstOff != nil && c01IsMoreKind(firstOff.K) {
+		sig = c01Sig(*firstOff)
+	}
+	desc = C01Desc{Sig: sig, Levels: descL, GoCode: c01GoSnippet(wraps, base, sp.Via, sp.Also), Between: c01Between(sp)}
 	return cqPair(cqList(ws), cqList(lcs)), desc, texts, lv
 }
 
@@ -931,6 +953,8 @@ func c01GoLiteral(base ItemSpec) string {
 		return c01NumGo[int(base.I)%len(c01NumGo)]
 	case "typednil":
 		return c01NilGoSrc[int(base.I)%len(c01NilGoSrc)]
+	case "objval", "zoo", "twin":
+		return c01DeclOf(base)
 	}
 	return ""
 }
@@ -938,7 +962,7 @@ func c01GoLiteral(base ItemSpec) string {
 func c01GoSnippet(wraps []string, base ItemSpec, via int, also []ItemSpec) string {
 	var e string
 	switch base.K {
-	case "num", "typednil":
+	case "num", "typednil", "objval", "zoo", "twin":
 		e = c01GoLiteral(base)
 	case "nil":
 		e = "nil"
@@ -999,6 +1023,9 @@ func c01SigSpec(sp C01Spec, base ItemSpec) string {
 	if hasNum(sp) {
 		return "item=scalar-after-an-equal-scalar"
 	}
+	if c01HasTwin(sp) {
+		return "item=one-of-several-types-of-the-same-name"
+	}
 	if len(sp.Also) > 0 {
 		return c01Sig(base) + "-after-other-items"
 	}
@@ -1006,6 +1033,18 @@ func c01SigSpec(sp C01Spec, base ItemSpec) string {
 }
 
 func c01Sig(base ItemSpec) string {
+	switch base.K {
+	case "objval":
+		return "item=struct-value-whose-methods-are-on-the-pointer-receiver"
+	case "zoo":
+		hold := "value"
+		if base.Mask&1 != 0 {
+			hold = "pointer"
+		}
+		return "item=" + c01ZooGroup(int(base.I)%len(c01Zoo)) + "-type-held-by-" + hold
+	case "twin":
+		return "item=one-of-several-types-of-the-same-name"
+	}
 	if base.K == "obj" {
 		names := []string{}
 		for i, n := range []string{"String", "GoString", "Error"} {
@@ -1102,6 +1141,29 @@ func c01Tags(sp C01Spec) []string {
 			}
 		}
 	}
+	if sp.Fresh || c01HasTwin(sp) {
+		tags = append(tags, "alone-in-a-process")
+	}
+	switch base.K {
+	case "zoo":
+		ent := c01Zoo[int(base.I)%len(c01Zoo)]
+		tags = append(tags, "zoo-kind="+ent.kind)
+		if base.Mask&1 != 0 {
+			tags = append(tags, "held=pointer")
+		} else {
+			tags = append(tags, "held=value")
+		}
+	case "objval":
+		tags = append(tags, "held=value", fmt.Sprintf("pointer-receiver-text-methods=%d", base.Mask&7))
+	case "twin":
+		tags = append(tags, fmt.Sprintf("namesake-family=%d", base.R))
+	}
+	for _, a := range sp.Also {
+		if _, ab := a.chain(); ab.K == "twin" {
+			tags = append(tags, "namesake-seen-before")
+			break
+		}
+	}
 	if base.K == "num" {
 		tags = append(tags, "num="+c01NumGo[int(base.I)%len(c01NumGo)])
 	}
@@ -1143,6 +1205,9 @@ func c01Size(sp C01Spec) int {
 		n += 2
 	}
 	n += 5 * len(sp.Also)
+	if len(sp.Also) > 0 && !(sp.Fresh || c01HasTwin(sp)) {
+		n += 4 // not alone in its process: a self-contained case is the better replay
+	}
 	for m := sp.Cb; m != 0; m >>= 1 {
 		n += m & 1
 	}
@@ -1178,6 +1243,12 @@ func c01Shrink(sp C01Spec) []C01Spec {
 	// candidates that drop an item which goes first come first: the library
 	// may remember texts across cells, and candidates share one process
 	if len(sp.Also) > 0 && !hasNum(sp) {
+		// one of the items that went first, alone
+		for _, a := range sp.Also {
+			if _, ab := a.chain(); c01IsMoreKind(ab.K) {
+				out = append(out, C01Spec{Item: a})
+			}
+		}
 		out = append(out, C01Spec{Item: sp.Item, Rounds: sp.Rounds, Via: sp.Via, Cb: sp.Cb, Idle: sp.Idle})
 		for i := range sp.Also {
 			if len(sp.Also) > 1 {
@@ -1257,6 +1328,25 @@ func c01Shrink(sp C01Spec) []C01Spec {
 			b.H, b.W = 0, 0
 			with(wraps, b, sp.Rounds)
 		}
+	case "objval", "zoo", "twin":
+		for i, f := range [][]byte{base.S, base.G, base.E} {
+			if len(f) > 1 {
+				b := base
+				h := f[:len(f)/2]
+				switch i {
+				case 0:
+					b.S = h
+				case 1:
+					b.G = h
+				default:
+					b.E = h
+				}
+				with(wraps, b, sp.Rounds)
+			}
+		}
+	}
+	for i := range out {
+		out[i].Fresh = sp.Fresh
 	}
 	return out
 }
@@ -1277,8 +1367,11 @@ func init() {
 			"0-2 mutation rounds (object fields / slice element / map value changed, then every level observed, then Update bottom-up or top-down, then observed); " +
 			"the outermost cell is made by NewCell or the item is stored THROUGH a table (AddRowItems, AddHeaders, NewRow+Add+AddRow, AppendNewRow+Add, header and body together) and the cell the table hands out (CellAt, Headers(), Row.Cells()) is the one observed and Updated, with the same expectations; " +
 			"for a table-held cell, between every mutation and the observation that must still show the snapshot, operations that are no request to update: rendering through csv / html / json / markdown / texttable, InvokeRenderCallbacks, reading everything back (Headers, AllRows, Cells, CellAt, Column), fmt %v / %+v / %#v of the table, adding rows / a separator / headers - with harmless callbacks registered for all four times on the cell itself, its row, its column, column 0 and the table, singly and all together; " +
+			"what an item OFFERS by Go's method sets: every kind of named type that can carry methods (struct, array, int, string, slice, map, func, chan) x methods declared on the value or on the pointer receiver x every subset of {String, GoString, Error}, each stored by value AND by pointer; the 32 generated types stored by value (their methods are on the pointer receiver: the value offers none); " +
+			"embedding (promotion through an embedded pointer, an embedded value, two levels, an embedded interface, an ambiguous and a shadowed String), generic types, a named int32 that is not rune, and standard-library values by value and by pointer (url.URL, big.Int / Float / Rat, bytes.Buffer, strings.Builder, time.Time, net.IPNet, os.PathError, strconv.NumError, regexp.Regexp, mail.Address, url.Userinfo; time.Duration / Month, net.IP, netip.Addr, errors.New / Join / %w, syscall.Errno, os.FileMode, json.Number, reflect.Value / Type / Kind, image.Point, context.Background ...), the descriptor always being what Go's own type assertions say of the very value stored; " +
+			"what the process saw before: distinct types of ONE name (nine types called c01Same - eight function-local ones, one per method subset, and the package-level one; the same over kind int), every ordered pair of them and some triples, by value and by pointer, and look-alike pairs (same kind, layout and number of methods, other methods; a value and a pointer of one type), each such case in a PROCESS OF ITS OWN (a child process: the items named in the case are the first items that process ever puts into cells, so the verdict is a function of the case alone); " +
 			"observed per level and phase: String, Empty, Item identity (type and value of what Item() hands back), Height, TerminalCellWidth; a case is non-trivial when the base item is not nil; distinct = distinct Coq case term",
-		Exhaustive: "all 32 method-set combinations x 8 text classes (with one mutation round), the 25 listed runes, every non-object kind, and every wrapper sequence over {Cell, *Cell} up to depth 2 around 6 representative bases",
+		Exhaustive: "all 32 method-set combinations x 8 text classes (with one mutation round), the 25 listed runes, every non-object kind, and every wrapper sequence over {Cell, *Cell} up to depth 2 around 6 representative bases; the 32 generated types by value; every type of the zoo (8 kinds x 2 receivers x 7-8 method subsets, embedding, generics, 48 standard-library values) by value and by pointer; all 72 ordered pairs of the nine same-named types, each pair alone in a process",
 		Gen: func(r *RNG, tier string) []json.RawMessage {
 			var out []json.RawMessage
 			add := func(sp C01Spec) { out = append(out, mustJSON(sp)) }
@@ -1405,6 +1498,7 @@ func init() {
 				}
 				add(withTwins(C01Spec{Item: wrapItem(w, b), Rounds: rounds, Via: via, Also: also, Cb: cb, Idle: idle}))
 			}
+			c01GenMore(r, tier, add)
 			return out
 		},
 		Run: func(spec json.RawMessage) CaseOut {
@@ -1412,7 +1506,15 @@ func init() {
 			if err := json.Unmarshal(spec, &sp); err != nil {
 				panic(err)
 			}
-			coq, desc, _, _ := c01Run(sp)
+			var coq string
+			var desc interface{}
+			ran := false
+			if c01WantsChild(sp) {
+				coq, desc, ran = c01InChild(spec)
+			}
+			if !ran {
+				coq, desc, _, _ = c01Run(sp)
+			}
 			_, base := sp.Item.chain()
 			return CaseOut{
 				Coq:        coq,
